@@ -29,7 +29,7 @@ TIMES = {"equal": lambda n: [float(i) for i in range(n)],
          "offset": lambda n: [5.0 + 0.25 * i for i in range(n)],
          "tiny": lambda n: [1e-3 * i for i in range(n)],
          "huge": lambda n: [1e4 * i + 3 for i in range(n)]}
-VMAPS = [["id"], ["rev"], ["gap", 3, 7], ["off", 10 ** 6], ["rot", 5], ["swap0"]]
+VMAPS = [["id"], ["rev"], ["gap", 3, 7], ["off", 10 ** 6], ["rot", 5], ["swap0"], ["stored_rev"]]
 
 
 class Velocities(ProductSystem):
@@ -107,7 +107,7 @@ class Velocities(ProductSystem):
         for t in range(L):
             a_t = ats[t]
             dz = {j: fields[t][j] for j in a_t["J"]}
-            spec.append({"at": a_t, "k": 1, "cmap": cm, "post": SC.displace_post(a_t, dz), "time": times[t], "lab": {"vmap": vmaps[t % 3]}})
+            spec.append({"at": a_t, "k": 1, "cmap": cm, "post": SC.displace_post(a_t, dz), "time": times[t], "lab": SC.lab_for(vmaps[t % 3])})
         s, infos, ex = SC.build_series(spec, cm=False)
         if ex is not None:
             return {"viol": [{"what": "ForSys construction raised", "detail": fsutil.exc_str(ex)}], "tags": tags, "cls": "exc"}
